@@ -1126,6 +1126,31 @@ func (ex *Exec) localEnv(fr *Frame, st *State) map[string]SV {
 		if _, clash := env[name]; !clash {
 			env[name] = SV{V: v, T: cell.Type}
 		}
+		// several variables of this name (disjoint or nested scopes): the
+		// latest declared one that exists on the path at hand
+		if all := fr.namedAll[name]; len(all) > 1 {
+			var cur *Term
+			okAll := true
+			for _, c := range all {
+				cv, present := st.Cells[c]
+				tv, isTV := cv.(TV)
+				if !present || !isTV || c.AllocPC == nil || !types.Identical(c.Type, cell.Type) {
+					okAll = false
+					break
+				}
+				if cur == nil {
+					cur = tv.T
+				} else if cur.Sort == tv.T.Sort {
+					cur = ex.ts.Ite(c.AllocPC, tv.T, cur)
+				} else {
+					okAll = false
+					break
+				}
+			}
+			if okAll && cur != nil {
+				env[name] = SV{V: TV{cur}, T: cell.Type}
+			}
+		}
 	}
 	// free variables of closures: by name through their bindings
 	for i, fv := range fr.fn.FreeVars {
@@ -1183,7 +1208,15 @@ func (ex *Exec) heapDiff(curSt, oldSt *State) map[string]*Term {
 		if cur == old {
 			continue
 		}
-		if strings.HasPrefix(k, "G:") || cur.Sort.Args[0] != SInt {
+		freshZero := false
+		if strings.HasPrefix(k, "G:") {
+			if g, ok := ex.prog.Contracts.GhostMaps[k[2:]]; ok && g.FreshZero {
+				// reset for every newly allocated object: only the entries of
+				// pre-existing objects belong to the old state
+				freshZero = true
+			}
+		}
+		if (strings.HasPrefix(k, "G:") && !freshZero) || cur.Sort.Args[0] != SInt {
 			out[k] = ts.Eq(cur, old)
 			continue
 		}
